@@ -180,3 +180,12 @@ package movegen
 //@   props C01
 //@   hyp repOK(b) && validPos(pos(b))
 //@   concl [partition] noisySum(b) + quietSum(b) == b2i(pseudo(pos(b), uint16(gm)))
+//@
+//@ # ---- `search` views
+//@ func GenNoisy view search
+//@   trusted frame only (proved in the main contract): fills the top frame of the move store
+//@   modifies ms.allocIx, ms.data.*
+//@
+//@ func GenNotNoisy view search
+//@   trusted frame only (proved in the main contract): fills the top frame of the move store
+//@   modifies ms.allocIx, ms.data.*
